@@ -23,7 +23,7 @@ verus!{
 #[verifier::external_type_specification] #[verifier::external_body] pub struct ExEcoString(EcoString);
 #[verifier::external_type_specification] #[verifier::external_body] pub struct ExTextRange(TextRange);
 #[verifier::external_type_specification] #[verifier::external_body] pub struct ExSymbolMap(SymbolMap);
-#[verifier::external_type_specification] #[verifier::external_body] pub struct ExDiagnostic(Diagnostic);
+#[verifier::external_type_specification] pub struct ExDiagnostic(Diagnostic);
 #[verifier::external_type_specification] #[verifier::external_body] pub struct ExRecord(Record);
 #[verifier::external_type_specification] #[verifier::external_body] pub struct ExMulticlass(Multiclass);
 #[verifier::external_type_specification] #[verifier::external_body] pub struct ExDefm(Defm);
@@ -128,6 +128,14 @@ pub assume_specification [Record::find_field] (r: &Record, sm: &SymbolMap, name:
 pub assume_specification [Record::find_template_arg] (r: &Record, name: &EcoString) -> (f: Option<TemplateArgumentId>) ensures f == sp_rec_targ(r, *name);
 pub assume_specification [Multiclass::find_template_arg] (m: &Multiclass, name: &EcoString) -> (f: Option<TemplateArgumentId>) ensures f == sp_mc_targ(m, *name);
 pub assume_specification [SymbolMap::find_def] (sm: &SymbolMap, name: &EcoString) -> (f: Option<RecordId>) ensures f == sp_def(sm, *name);
+// ---- C17: ranges are paired with the file on top of the include stack; identifier ranges come from the identifier's own token
+pub assume_specification<M0: Into<String>> [Diagnostic::new] (location: FileRange, message: M0) -> (r: Diagnostic) ensures r.location == location;
+pub assume_specification [FileRange::new] (file: FileId, range: syntax::parser::TextRange) -> (r: FileRange) ensures r.file == file, r.range == range;
+/// text / range of an identifier node's token (uninterpreted: what the typed AST accessors return)
+pub uninterp spec fn ident_text(i: &ast::Identifier) -> Option<EcoString>;
+pub uninterp spec fn ident_range(i: &ast::Identifier) -> Option<syntax::parser::TextRange>;
+pub assume_specification [ast::Identifier::value] (i: &ast::Identifier) -> (r: Option<EcoString>) ensures r == ident_text(i);
+pub assume_specification [ast::Identifier::range] (i: &ast::Identifier) -> (r: Option<syntax::parser::TextRange>) ensures r == ident_range(i);
 /// A-hash: EcoString obeys vstd's HashMap key model; `==` on EcoString compares the text (ecow: PartialEq via str)
 pub broadcast axiom fn ax_ecostring_key_model() ensures #[trigger] vstd::std_specs::hash::obeys_key_model::<EcoString>();
 pub assume_specification [<EcoString as core::cmp::PartialEq>::eq] (a: &EcoString, b: &EcoString) -> (r: bool) ensures r == (*a == *b);
